@@ -155,6 +155,27 @@ def check(ctx):
                     lhs = t.split(" not in " if neg else " in ")[0]
                     test = (sense, lhs.split("(")[0])
         rs[fn.name] = (side, test)
+        if ids:
+            # every way out of the method has consulted the id set (or one of the lists is empty)
+            from ..cfg import cfg_of as _cfg16
+            cfg_ = _cfg16(fn)
+            inode = cfg_.node_of(ids[0], fn.module.parent)
+            path_ = cfg_.path_avoiding(lambda nd: nd is inode)
+            okp_ = path_ is None
+            tests_ = []
+            if path_ is not None:
+                for a_, b_ in zip(path_, path_[1:]):
+                    if a_.kind == "test" and a_.ast is not None:
+                        lab_ = next((l for s_, l in a_.succ if s_ is b_), None)
+                        tests_.append((lab_, norm(a_.ast)))
+                import re as _re16
+                okp_ = any((l == "T" and _re16.search(r"^not \w+$|len\(\w+\) == 0|^not len\(\w+\)$", t)) or
+                           (l == "F" and _re16.search(r"^\w+$|len\(\w+\) > 0|^len\(\w+\)$", t)) for l, t in tests_)
+            ctx.ob("SIB-14", fn, f"every exit of {fn.name} follows {norm(ids[0])[:50]}", ids[0], okp_,
+                   "no exit avoids the id set (or only for an empty list)" if okp_ else
+                   f"{fn.name} can finish without building the right-hand id set (under {tests_[-2:]}): what it returns then does not "
+                   f"depend on `by` -- for differently named keys (e.g. a list joined to itself on (parent, id)) the matched / unmatched "
+                   f"split is wrong", clause="semi_join and anti_join return the unmerged matched items and the unmatched items")
     ok = rs["semi_join"][0] == rs["anti_join"][0] == "right" and rs["semi_join"][1] and rs["anti_join"][1] \
         and rs["semi_join"][1][0] == "in" and rs["anti_join"][1][0] == "not in"
     ctx.ob("SIB-14", anti, f"semi {rs['semi_join']} / anti {rs['anti_join']}", anti.node, bool(ok),
